@@ -46,6 +46,23 @@ Theorem C02_selection_iff : forall gf nf t,
 Proof. exact selection_iff. Qed.
 Print Assumptions C02_selection_iff.
 
+(* the oracle `spec` selects declaratively, for every scenario *)
+Theorem C02_oracle_selection_declarative : forall s t,
+  selected s t = true <-> Accepted (s_gf s) (t_group t) /\ Accepted (s_nf s) (t_name t).
+Proof. exact selected_declarative. Qed.
+Print Assumptions C02_oracle_selection_declarative.
+
+(* tests are started in the order of the list (whatever reverse/shuffle made of it) *)
+Theorem C02_run_in_list_order : forall gf nf ri l,
+  started_ids (fst (run_all_tests gf nf ri l)) = map t_id (filter (should_run gf nf) l).
+Proof. exact run_in_list_order. Qed.
+Print Assumptions C02_run_in_list_order.
+
+(* the pointer array built from the list holds exactly the list *)
+Theorem C02_pointer_array_id : forall (A : Type) (a : list A), pointer_array a = a.
+Proof. exact @pointer_array_id. Qed.
+Print Assumptions C02_pointer_array_id.
+
 (* the code's matcher (C13 StrStr / StrCmp on NUL-terminated buffers) is the textbook one on strings without NUL *)
 Theorem C02_filter_match_textbook : forall f x, filter_ok f = true -> nonul x = true -> filter_match f x = accepts f x.
 Proof. exact filter_match_accepts. Qed.
